@@ -14,6 +14,7 @@ from __future__ import annotations
 
 import ast
 
+from .. import nf, vg
 from ..core import Ctx
 from ..model import AnalysisError
 
@@ -59,7 +60,7 @@ def run(ctx: Ctx):
     for mi, node, fn in sites:
         ds = ast.unparse(node.args[0]) if node.args else (ast.unparse(kw(node, "dataset")) if kw(node, "dataset") is not None else "?")
         cf = kw(node, "collate_fn")
-        ok = cf is not None and ast.unparse(cf) == f"{ds}.collate_fn"
+        ok = cf is not None and isinstance(cf, ast.Attribute) and cf.attr == "collate_fn" and ast.unparse(cf.value) in (ds, f"type({ds})", f"{ds}.__class__")
         ctx.ob("C17.a", f"{fn}:DataLoader({ds})", ok, f"{mi.relpath}:{node.lineno}",
                f"collate_fn={ast.unparse(cf) if cf is not None else 'default'}" + ("" if ok else f" -- must be {ds}.collate_fn (the default collate cannot rebuild TensorDicts / loses the dataset's own batching)"),
                construct=f"{fn}:collate_fn")
@@ -84,14 +85,46 @@ def run(ctx: Ctx):
         ctx.ob("C17.b", f"{fn}:concat-in-order", ok, fi.loc, "torch.cat([f(batch) for batch in dl], 0)", construct=f"{fn}:concat")
     fi = ctx.repo.get_function("rl4co/tasks/eval.py", "EvalBase.__call__")
     ctx.fn(fi)
-    src = ast.unparse(fi.node)
-    loops = [n for n in ast.walk(fi.node) if isinstance(n, ast.For)]
-    ok = False
-    for lp in loops:
-        body = [ast.unparse(b) for b in lp.body]
-        if "rewards_list.append(rewards)" in body and "actions_list.append(actions)" in body and "dataloader" in ast.unparse(lp.iter):
-            ok = "rewards = torch.cat(rewards_list)" in src and "for action in actions_list], 0)" in src.replace("\n", " ").replace("  ", " ")
-    ctx.ob("C17.b", "EvalBase.__call__:pairwise-append-and-concat", ok, fi.loc, "rewards and actions appended pairwise per batch, concatenated in loader order on dim 0", construct="EvalBase.__call__:concat")
+    ite = vg.Interp(ctx.repo, fi.cls, inline_policy=lambda f, a: False)
+    fre = ite.run_function(fi)
+    apps = [e for e in ite.events if e.kind == "methcall" and e.data[1] == "append" and len(e.data[2]) == 1]
+    ok, why = False, "per-batch appends of the _inner results not found"
+    def is_inner_call(x):
+        x = nf.strip(x)
+        while isinstance(x, vg.S) and x.op == "nograd":
+            x = nf.strip(x.args[0])
+        return isinstance(x, vg.S) and (nf._fn(x) or "").endswith("._inner")
+
+    pair = [e for e in apps if isinstance(e.data[2][0], vg.S) and nf.strip(e.data[2][0]).op == "sub" and is_inner_call(nf.strip(e.data[2][0]).args[0])]
+    if len(pair) == 2:
+        v0, v1 = [nf.strip(e.data[2][0]) for e in pair]
+        same_call = v0.args[0] is v1.args[0]
+        same_loop = pair[0].conds == pair[1].conds and len(pair[0].conds) == 1
+        lists = {nf.strip(e.data[2][0]).args[1].args[0]: nf.strip(e.data[0]) for e in pair if nf.strip(e.data[2][0]).args[1].op == "const"}
+        distinct = len(lists) == 2 and lists.get(0) is not lists.get(1)
+        over_loader = any(isinstance(n, ast.For) and any(isinstance(x, ast.Name) and x.id == "dataloader" for x in ast.walk(n.iter)) for n in ast.walk(fi.node))
+        ret = fre.ret
+        items = {it_.args[0].args[0]: it_.args[1] for it_ in (ret.args if isinstance(ret, vg.S) and ret.op == "dict" else []) if it_.op == "item" and it_.args[0].op == "const"}
+
+        def cat_of(v, lst):
+            """v contains torch.cat over exactly the list `lst` (possibly through a per-item comprehension), on dim 0"""
+            for n in vg.walk(v) if isinstance(v, vg.S) else []:
+                if nf._fn(n) == "torch.cat":
+                    src = nf.strip(n.args[1])
+                    dim_ok = len(n.args) == 2 or vg.is_const(n.args[2], 0) or (n.args[2].op == "kw" and vg.is_const(n.args[2].args[1], 0))
+                    if src is lst and dim_ok:
+                        return True
+                    if src.op == "comp" and dim_ok:
+                        overs = [x for x in src.args if isinstance(x, vg.S) and x.op == "over"]
+                        if len(overs) == 1 and nf.strip(overs[0].args[0]) is lst:
+                            return True
+            return False
+        r_ok = distinct and cat_of(items.get("rewards"), lists[1])
+        a_ok = distinct and cat_of(items.get("actions"), lists[0])
+        ok = same_call and same_loop and distinct and over_loader and r_ok and a_ok
+        why = (f"actions / rewards of one _inner call appended per loader batch: {same_call and same_loop and over_loader}; into two distinct lists: {distinct}; "
+               f"'rewards' = cat(rewards list) on dim 0: {r_ok}; 'actions' = cat(padded actions list) on dim 0: {a_ok}")
+    ctx.ob("C17.b", "EvalBase.__call__:pairwise-append-and-concat", ok, fi.loc, why, construct="EvalBase.__call__:concat")
     # wrap_dataset
     rb = ctx.repo.get_class(BL, "RolloutBaseline")
     fi = rb.methods["wrap_dataset"]
@@ -110,66 +143,131 @@ def run(ctx: Ctx):
             ok = isinstance(val, ast.Name) and any(isinstance(a, ast.Assign) and isinstance(a.targets[0], ast.Name) and a.targets[0].id == val.id and rolls[0] in list(ast.walk(a.value)) for a in ast.walk(fi.node))
     ctx.ob("C17.c", "RolloutBaseline.wrap_dataset", ok, fi.loc, "values computed on `dataset` are attached to that same `dataset` under 'extra'", construct="RolloutBaseline.wrap_dataset:same-dataset")
     rf = ctx.repo.get_function("rl4co/models/rl/reinforce/reinforce.py", "REINFORCE.calculate_loss")
-    ctx.ob("C17.c", "REINFORCE.calculate_loss:reads-extra", "batch.get('extra', None)" in ast.unparse(rf.node), rf.loc, "the attached value is read back under the same key", construct="REINFORCE.calculate_loss:extra-key")
+    ctx.fn(rf)
+    itr = vg.Interp(ctx.repo, rf.cls, inline_policy=lambda f, a: False)
+    frr = itr.run_function(rf)
+    reads_extra = any(key == "extra" for f_ in [frr] + list(itr.call_frames) for (_, key, _, _) in f_.reads) or any(e.kind == "methcall" and e.data[1] == "get" and e.data[2] and vg.is_const(e.data[2][0], "extra") and "batch" in vg.show(e.data[0], 2) for e in itr.events) or \
+        any(isinstance(n, ast.Subscript) and isinstance(n.slice, ast.Constant) and n.slice.value == "extra" and isinstance(n.value, ast.Name) and n.value.id == "batch" for n in ast.walk(rf.node))
+    ctx.ob("C17.c", "REINFORCE.calculate_loss:reads-extra", reads_extra, rf.loc, "the attached value is read back under the same key", construct="REINFORCE.calculate_loss:extra-key")
+    def run_m(cls, name):
+        fi_ = cls.methods[name]
+        ctx.fn(fi_)
+        it_ = vg.Interp(ctx.repo, cls, inline_policy=lambda f, a: False)
+        return fi_, it_, it_.run_function(fi_)
+
+    def is_param(x, name):
+        return isinstance(x, vg.S) and x.op == "param" and x.args[0] == name
+
+    def is_selfattr(x, name):
+        return isinstance(x, vg.S) and x.op == "selfattr" and x.args[0] == name
+
     ek = ctx.repo.get_class(DS, "ExtraKeyDataset")
-    gi = ek.methods["__getitem__"]
-    ctx.fn(gi)
+    gi, it_, fr_ = run_m(ek, "__getitem__")
     ip = gi.params()[1]
-    subs = {}
-    for n in ast.walk(gi.node):
-        if isinstance(n, ast.Subscript) and isinstance(n.value, ast.Attribute) and isinstance(n.value.value, ast.Name) and n.value.value.id == "self" and n.value.attr in ("data", "extra"):
-            subs.setdefault(n.value.attr, []).append(ast.unparse(n.slice))
-    ok = subs.get("data") == [ip] and subs.get("extra") == [ip]
-    ctx.ob("C17.c", "ExtraKeyDataset.__getitem__:same-index", ok, gi.loc, "data[idx] and extra[idx] use one index", construct="ExtraKeyDataset.__getitem__:index")
-    ini = ek.methods["__init__"]
-    src = ast.unparse(ini.node)
-    ok = "assert self.data_len == len(extra)" in src and "self.data = dataset.data" in src and "self.extra = extra" in src
-    ctx.ob("C17.c", "ExtraKeyDataset.__init__", ok, ini.loc, "lengths asserted equal; data and extra stored unpermuted", construct="ExtraKeyDataset.__init__:lengths")
+    r = fr_.ret
+    ok = isinstance(r, vg.S) and r.op == "store" and r.args[0].op == "sub" and is_selfattr(r.args[0].args[0], "data") and is_param(r.args[0].args[1], ip) and is_selfattr(r.args[1], "key_name") \
+        and r.args[2].op == "sub" and is_selfattr(r.args[2].args[0], "extra") and is_param(r.args[2].args[1], ip)
+    ctx.ob("C17.c", "ExtraKeyDataset.__getitem__:same-index", ok, gi.loc, "returns data[idx] with data[idx][key_name] = extra[idx]: one index for both", construct="ExtraKeyDataset.__getitem__:index")
+    ini, it_, fr_ = run_m(ek, "__init__")
+    pd, pe = ini.params()[1], ini.params()[2]
+    d_ = it_.selfattrs.get("data")
+    x_ = it_.selfattrs.get("extra")
+    same_len = False
+    for e in it_.events:
+        if e.kind == "assert" and not e.conds and isinstance(e.data, vg.S) and e.data.op == "==":
+            sides = [vg.show(nf.strip(x), 3) for x in e.data.args]
+            lens = [x for x in e.data.args if nf._fn(nf.strip(x)) == "len"]
+            if len(lens) == 2:
+                objs = {vg.show(nf.strip(x).args[1], 2) for x in lens}
+                same_len = any(pe == o for o in objs) and any(pd in o for o in objs)
+    ok = same_len and isinstance(d_, vg.S) and d_.op == "attr" and d_.args[1] == "data" and pd in vg.show(d_.args[0], 2) and is_param(x_, pe)
+    ctx.ob("C17.c", "ExtraKeyDataset.__init__", ok, ini.loc, f"len(dataset) == len(extra) asserted: {same_len}; data and extra stored as given (no copy / permutation)", construct="ExtraKeyDataset.__init__:lengths")
     for cn in ("TensorDictDataset", "FastTdDataset"):
         c = ctx.repo.get_class(DS, cn)
-        ak = c.methods["add_key"]
-        ok = "return ExtraKeyDataset(self, value, key_name=key)" in ast.unparse(ak.node)
-        ctx.ob("C17.c", f"{cn}.add_key", ok, ak.loc, "wraps this dataset (no copy / reorder)", construct=f"{cn}.add_key")
+        ak, it_, fr_ = run_m(c, "add_key")
+        r = fr_.ret
+        pk, pv = ak.params()[1], ak.params()[2]
+        ok = isinstance(r, vg.S) and r.op == "call" and isinstance(r.args[0], vg.S) and r.args[0].op == "class" and r.args[0].args[0].endswith(":ExtraKeyDataset")
+        if ok:
+            pos = [x for x in r.args[1:] if not (isinstance(x, vg.S) and x.op == "kw")]
+            kws = {k.args[0]: k.args[1] for k in r.args[1:] if isinstance(k, vg.S) and k.op == "kw"}
+            ok = len(pos) >= 2 and pos[0].op == "self" and is_param(pos[1], pv) and is_param(kws.get("key_name", pos[2] if len(pos) > 2 else None), pk)
+        ctx.ob("C17.c", f"{cn}.add_key", ok, ak.loc, "ExtraKeyDataset(self, value, key_name=key): wraps this dataset (no copy / reorder)", construct=f"{cn}.add_key")
     # disassembly / collate
     td = ctx.repo.get_class(DS, "TensorDictDataset")
-    ini = td.methods["__init__"]
-    ctx.fn(ini)
-    comps = [n for n in ast.walk(ini.node) if isinstance(n, ast.ListComp)]
+    ini, it_, fr_ = run_m(td, "__init__")
+    d_ = it_.selfattrs.get("data")
+    n_ = it_.selfattrs.get("data_len")
     ok = False
-    for c in comps:
-        if len(c.generators) == 1 and ast.unparse(c.generators[0].iter) == "range(self.data_len)" and not c.generators[0].ifs and isinstance(c.elt, ast.DictComp):
-            d = c.elt
-            ok = ast.unparse(d.value) == f"value[{ast.unparse(c.generators[0].target)}]" and ast.unparse(d.generators[0].iter) == "td.items()"
+    if isinstance(d_, vg.S) and d_.op == "comp" and d_.args[0].args[0] == "ListComp" if isinstance(d_, vg.S) and d_.op == "comp" and isinstance(d_.args[0], vg.S) else False:
+        pass
+    if isinstance(d_, vg.S) and d_.op == "comp":
+        kind = d_.args[0].args[0] if isinstance(d_.args[0], vg.S) else d_.args[0]
+        overs = [x for x in d_.args if isinstance(x, vg.S) and x.op == "over"]
+        inner = [x for x in d_.args[1:] if isinstance(x, vg.S) and x.op == "comp"]
+        if kind == "ListComp" and len(overs) == 1 and len(inner) == 1 and nf._fn(overs[0].args[0]) == "range" and len(overs[0].args[0].args) == 2 and overs[0].args[0].args[1] is n_:
+            i_ = [x for x in vg.walk(inner[0]) if x.op == "iter" and x.args[0] is overs[0].args[0]]
+            dc = inner[0]
+            dk = dc.args[0].args[0] if isinstance(dc.args[0], vg.S) else dc.args[0]
+            d_over = [x for x in dc.args if isinstance(x, vg.S) and x.op == "over"]
+            vals = [x for x in dc.args[1:] if isinstance(x, vg.S) and x.op not in ("over",)]
+            # {key: value[i] for key, value in td.items()}
+            ok = dk == "DictComp" and len(d_over) == 1 and d_over[0].args[0].op == "meth" and d_over[0].args[0].args[1] == "items" and len(vals) == 2 and \
+                vals[0].op == "sub" and vg.is_const(vals[0].args[1], 0) and vals[1].op == "sub" and bool(i_) and vals[1].args[1] is i_[0] and \
+                vals[1].args[0].op == "sub" and vg.is_const(vals[1].args[0].args[1], 1) and vals[1].args[0].args[0] is vals[0].args[0]
     ctx.ob("C17.d", "TensorDictDataset.__init__:positional", ok, ini.loc, "[{key: value[i] for key, value in td.items()} for i in range(len)]", construct="TensorDictDataset.__init__:disassembly")
-    cf = td.methods["collate_fn"]
-    ctx.fn(cf)
+    cf, it_, fr_ = run_m(td, "collate_fn")
     bp = cf.params()[0]
-    src = ast.unparse(cf.node)
-    stacks = [n for n in ast.walk(cf.node) if isinstance(n, ast.Call) and ast.unparse(n.func) == "torch.stack"]
-    ok = len(stacks) == 1 and isinstance(stacks[0].args[0], ast.ListComp)
-    if ok:
-        lc = stacks[0].args[0]
-        g = lc.generators[0]
-        ok = len(lc.generators) == 1 and not g.ifs and isinstance(g.iter, ast.Name) and g.iter.id == bp and isinstance(lc.elt, ast.Subscript) and \
-            isinstance(lc.elt.value, ast.Name) and isinstance(g.target, ast.Name) and lc.elt.value.id == g.target.id
-        ok = ok and f"len({bp})" in src and not any(w in src for w in ("sorted(", "reversed(", "set(", "shuffle"))
-    ctx.ob("C17.d", "TensorDictDataset.collate_fn:in-order-stack", ok, cf.loc, "every key stacked over the batch in batch order", construct="TensorDictDataset.collate_fn:stack")
-    gi = td.methods["__getitem__"]
-    ctx.ob("C17.d", "TensorDictDataset.__getitem__", f"return self.data[{gi.params()[1]}]" in ast.unparse(gi.node), gi.loc, "returns item idx", construct="TensorDictDataset.__getitem__")
-    ft = ctx.repo.get_class(DS, "FastTdDataset")
-    gi = ft.methods["__getitems__"]
-    ctx.ob("C17.d", "FastTdDataset.__getitems__", f"return self.data[{gi.params()[1]}]" in ast.unparse(gi.node), gi.loc, "indexes the TensorDict with the given indices", construct="FastTdDataset.__getitems__")
+    ok = False
+    if isinstance(fr_.ret, vg.TD) and len(fr_.ret.opaque_updates) == 1 and not fr_.ret.cells:
+        dc = fr_.ret.opaque_updates[0]
+        bs = fr_.ret.meta.get("batch_size")
+        if dc.op == "comp":
+            d_over = [x for x in dc.args if isinstance(x, vg.S) and x.op == "over"]
+            vals = [x for x in dc.args[1:] if isinstance(x, vg.S) and x.op != "over"]
+            if len(d_over) == 1 and len(vals) == 2 and nf._fn(vals[1]) == "torch.stack":
+                key = vals[0]
+                lc = vals[1].args[1]
+                st_dim0 = len(vals[1].args) == 2 or vg.is_const(vals[1].args[2], 0) or (vals[1].args[2].op == "kw" and vg.is_const(vals[1].args[2].args[1], 0))
+                if lc.op == "comp":
+                    l_over = [x for x in lc.args if isinstance(x, vg.S) and x.op == "over"]
+                    l_val = [x for x in lc.args[1:] if isinstance(x, vg.S) and x.op != "over"]
+                    in_order = len(l_over) == 1 and bp in vg.show(l_over[0].args[0], 2) and l_over[0].args[0].op in ("tdref", "param") and len(lc.args) == 3
+                    elt_ok = len(l_val) == 1 and l_val[0].op == "sub" and l_val[0].args[1] is key and l_val[0].args[0].op == "iter" and l_val[0].args[0].args[0] is l_over[0].args[0]
+                    n_ok = isinstance(bs, vg.S) and any(nf._fn(x) == "len" and x.args[1] is l_over[0].args[0] for x in vg.walk(bs))
+                    ok = st_dim0 and in_order and elt_ok and n_ok
+    ctx.ob("C17.d", "TensorDictDataset.collate_fn:in-order-stack", ok, cf.loc, "every key stacked (dim 0) over the items of the batch in the order given; batch size = len(batch)", construct="TensorDictDataset.collate_fn:stack")
+    for cn, mn in (("TensorDictDataset", "__getitem__"), ("FastTdDataset", "__getitems__")):
+        c = ctx.repo.get_class(DS, cn)
+        gi, it_, fr_ = run_m(c, mn)
+        r = fr_.ret
+        if isinstance(r, vg.TD):
+            ok = r.parent is not None and is_param(r.parent[1], gi.params()[1]) and not r.cells
+        else:
+            ok = isinstance(r, vg.S) and r.op == "sub" and is_selfattr(r.args[0], "data") and is_param(r.args[1], gi.params()[1])
+        ctx.ob("C17.d", f"{cn}.{mn}", ok, gi.loc, "returns self.data[idx] for the index given", construct=f"{cn}.{mn}")
     fg = ctx.repo.get_class(DS, "TensorDictDatasetFastGeneration")
-    gi = fg.methods["__getitems__"]
-    src = ast.unparse(gi.node)
+    gi, it_, fr_ = run_m(fg, "__getitems__")
     ixp = gi.params()[1]
-    dcs = [n for n in ast.walk(gi.node) if isinstance(n, ast.DictComp)]
-    ok = len(dcs) == 1 and isinstance(dcs[0].value, ast.Subscript) and ast.unparse(dcs[0].value.slice) == ixp and ast.unparse(dcs[0].generators[0].iter) == "self.data.items()" and f"len({ixp})" in src
-    ctx.ob("C17.d", "TensorDictDatasetFastGeneration.__getitems__", ok, gi.loc, "every key indexed with the same index list", construct="TensorDictDatasetFastGeneration.__getitems__")
+    ok = False
+    if isinstance(fr_.ret, vg.TD) and len(fr_.ret.opaque_updates) == 1 and not fr_.ret.cells:
+        dc = fr_.ret.opaque_updates[0]
+        bs = fr_.ret.meta.get("batch_size")
+        if dc.op == "comp":
+            d_over = [x for x in dc.args if isinstance(x, vg.S) and x.op == "over"]
+            vals = [x for x in dc.args[1:] if isinstance(x, vg.S) and x.op != "over"]
+            ok = len(d_over) == 1 and d_over[0].args[0].op == "meth" and d_over[0].args[0].args[1] == "items" and "self.data" in vg.show(d_over[0].args[0].args[0], 2) and len(vals) == 2 and \
+                vals[0].op == "sub" and vg.is_const(vals[0].args[1], 0) and vals[1].op == "sub" and is_param(vals[1].args[1], ixp) and vals[1].args[0].op == "sub" and \
+                vg.is_const(vals[1].args[0].args[1], 1) and vals[1].args[0].args[0] is vals[0].args[0] and len(dc.args) == 4 and \
+                isinstance(bs, vg.S) and any(nf._fn(x) == "len" and is_param(x.args[1], ixp) for x in vg.walk(bs))
+    ctx.ob("C17.d", "TensorDictDatasetFastGeneration.__getitems__", ok, gi.loc, "every key indexed with the same index list; batch size = len(index)", construct="TensorDictDatasetFastGeneration.__getitems__")
     for cn in ("FastTdDataset", "TensorDictDatasetFastGeneration"):
         c = ctx.repo.get_class(DS, cn)
-        cfn = c.methods["collate_fn"]
-        ctx.ob("C17.d", f"{cn}.collate_fn:identity", "return batch" in ast.unparse(cfn.node) and len(cfn.node.body) <= 2, cfn.loc, "batched __getitems__ result passed through", construct=f"{cn}.collate_fn")
+        cfn, it_, fr_ = run_m(c, "collate_fn")
+        r = fr_.ret
+        bp_ = cfn.params()[0]
+        ok = (isinstance(r, vg.TD) and r.name == bp_ and r.parent is None and not r.cells and not r.opaque_updates) or is_param(r, bp_)
+        ctx.ob("C17.d", f"{cn}.collate_fn:identity", ok, cfn.loc, "batched __getitems__ result passed through unchanged", construct=f"{cn}.collate_fn")
     # the index handed in by the sampler is used as is
     for cn, mn in (("FastTdDataset", "__getitems__"), ("TensorDictDatasetFastGeneration", "__getitems__"), ("TensorDictDataset", "__getitem__"), ("ExtraKeyDataset", "__getitem__")):
         c = ctx.repo.get_class(DS, cn)
@@ -192,15 +290,34 @@ def run(ctx: Ctx):
                "shuffle defaults to False and is passed through unchanged: val/test loaders (which do not pass it) keep dataset order" if (okd and not rebound) else
                "the default / value of `shuffle` is not the constant False: validation and test loaders may be shuffled",
                construct=f"RL4COLitModule.{mn}:shuffle-default")
-    tl = ctx.repo.get_function("rl4co/models/rl/common/base.py", "RL4COLitModule.train_dataloader")
-    vl = ctx.repo.get_function("rl4co/models/rl/common/base.py", "RL4COLitModule.val_dataloader")
-    ok = "self.shuffle_train_dataloader" in ast.unparse(tl.node) and "shuffle" not in ast.unparse(vl.node)
-    ctx.ob("C17.b", "RL4COLitModule:train-vs-val-shuffle", ok, tl.loc, "only the training loader receives the shuffle setting", construct="RL4COLitModule:loader-shuffle")
+    def loader_call(fn_name):
+        f_ = ctx.repo.get_function("rl4co/models/rl/common/base.py", f"RL4COLitModule.{fn_name}")
+        ctx.fn(f_)
+        calls = [n for n in ast.walk(f_.node) if isinstance(n, ast.Call) and isinstance(n.func, ast.Attribute) and n.func.attr == "_dataloader"]
+        return f_, calls
+
+    def shuffle_arg(call):
+        a = call.args[2] if len(call.args) > 2 else kw(call, "shuffle")
+        return a
+
+    tl, tcalls = loader_call("train_dataloader")
+    ok = len(tcalls) == 1 and shuffle_arg(tcalls[0]) is not None and any(isinstance(n, ast.Attribute) and n.attr == "shuffle_train_dataloader" for n in ast.walk(shuffle_arg(tcalls[0])))
+    for other in ("val_dataloader", "test_dataloader"):
+        f_, calls_ = loader_call(other)
+        ok = ok and len(calls_) == 1 and (shuffle_arg(calls_[0]) is None or (isinstance(shuffle_arg(calls_[0]), ast.Constant) and shuffle_arg(calls_[0]).value is False)) \
+            and not any(k.arg is None for k in calls_[0].keywords)
+    ctx.ob("C17.b", "RL4COLitModule:train-vs-val-shuffle", ok, tl.loc, "only the training loader receives the shuffle setting; validation and test loaders pass none (default False)", construct="RL4COLitModule:loader-shuffle")
     # training loader
     fi = ctx.repo.get_function("rl4co/models/rl/common/base.py", "RL4COLitModule._dataloader_single")
     ctx.fn(fi)
-    ok = "shuffle=shuffle" in ast.unparse(fi.node) and "collate_fn=dataset.collate_fn" in ast.unparse(fi.node)
-    ctx.ob("C17.a", "RL4COLitModule._dataloader_single", ok, fi.loc, "shuffling happens inside the loader over (instance, extra) items, after wrapping", construct="RL4COLitModule._dataloader_single")
+    dls = [n for n in ast.walk(fi.node) if isinstance(n, ast.Call) and isinstance(n.func, ast.Name) and n.func.id == "DataLoader"]
+    dsp = fi.params()[1]
+    ok = len(dls) == 1
+    if ok:
+        sh = kw(dls[0], "shuffle")
+        d0 = dls[0].args[0] if dls[0].args else kw(dls[0], "dataset")
+        ok = isinstance(sh, ast.Name) and sh.id == "shuffle" and isinstance(d0, ast.Name) and d0.id == dsp
+    ctx.ob("C17.a", "RL4COLitModule._dataloader_single", ok, fi.loc, "the (already wrapped) dataset it is given is what the loader iterates; shuffling happens inside the loader over (instance, extra) items", construct="RL4COLitModule._dataloader_single")
 
 
 def run_thorough(ctx: Ctx):
